@@ -32,6 +32,11 @@ def faults():
         ("control-for", "py", "% for a in = b:\n% endfor\n", 0, 0, True, ""),
         ("control-elif", "py", "% if x:\n a\n% elif y = = 2:\n% endif\n", 2, 0, True, ""),
         ("control-except", "py", "% try:\n a\n% except = :\n% endtry\n", 2, 0, True, ""),
+        ("control-else-if", "py", "% if x:\n a\n% else if y:\n b\n% endif\n", 2, 0, True, ""),
+        ("control-else-junk", "py", "% if x:\n a\n% elif y:\n b\n% else = :\n c\n% endif\n", 4, 0, True, ""),
+        ("control-for-else", "py", "% for i in x:\n a\n% else = 1:\n b\n% endfor\n", 2, 0, True, ""),
+        ("control-while", "py", "% while x = = 1:\n% endwhile\n", 0, 0, True, ""),
+        ("control-with", "py", "% with = x:\n% endwith\n", 0, 0, True, ""),
         ("control-continuation", "py", "% if a and \\\n   b = = c:\n% endif\n", 1, 0, True, ""),
         ("block", "py", "<%\n  x = 1\n  y = = 2\n%>", 2, 0, False, ""),
         ("block-same-line", "py", "<% y = = 2 %>", 0, 0, False, ""),
